@@ -100,6 +100,35 @@ func c03Burst(k, m int) *gen.Graph {
 	return g
 }
 
+// c03Direct: one of the fork's outgoing flows leads straight to the join (a branch without any node), listed at
+// position po among the fork's outgoing flows and pi among the join's incoming ones; the other two branches hold
+// a task each (start -> fork -> {u1, -, u2} -> join -> d1 -> end).
+func c03Direct(po, pi int) *gen.Graph {
+	g := gen.NewGraph("c03d")
+	s := g.Add(gen.Start, "start", "")
+	f := g.Add(gen.And, "fork", "")
+	j := g.Add(gen.And, "join", "")
+	u1, u2 := g.Add(gen.Task, "u1", ""), g.Add(gen.Task, "u2", "")
+	d := g.Add(gen.Task, "d1", "")
+	e := g.Add(gen.End, "end", "")
+	g.Connect(s, f, nil)
+	a := g.Connect(f, u1, nil)
+	b := g.Connect(f, u2, nil)
+	x := g.Connect(f, j, nil)
+	a2 := g.Connect(u1, j, nil)
+	b2 := g.Connect(u2, j, nil)
+	g.Connect(j, d, nil)
+	g.Connect(d, e, nil)
+	place := func(direct string, others []string, pos int) []string {
+		out := append([]string(nil), others...)
+		out = append(out[:pos], append([]string{direct}, out[pos:]...)...)
+		return out
+	}
+	f.Out = place(x.ID, []string{a.ID, b.ID}, po)
+	j.In = place(x.ID, []string{a2.ID, b2.ID}, pi)
+	return g
+}
+
 func c03Cases(tier string, seed uint64) []fw.Case {
 	var cs []fw.Case
 	// pipelined arrivals: every order in which the four producer tasks finish, downstream tasks answered as they appear
@@ -173,6 +202,15 @@ func c03Cases(tier string, seed uint64) []fw.Case {
 			}
 			sc := step.Case{Name: fmt.Sprintf("pipe3-M%d-%v", m, perm), G: g, Order: order, Family: "pipelined"}
 			cs = append(cs, fw.MkCase("stepwise", &sc))
+		}
+	}
+	// a branch without any node, at every position among the fork's outgoing and the join's incoming flows
+	for po := 0; po < 3; po++ {
+		for pi := 0; pi < 3; pi++ {
+			for _, order := range [][]string{{"u1", "u2", "d1"}, {"u2", "u1", "d1"}} {
+				sc := step.Case{Name: fmt.Sprintf("direct-out%d-in%d-%v", po, pi, order), G: c03Direct(po, pi), Order: order, Family: "direct"}
+				cs = append(cs, fw.MkCase("stepwise", &sc))
+			}
 		}
 	}
 	// bursts: several complete sets in the gateway's inbox at once
